@@ -47,6 +47,8 @@ def repr_to_py(r):
         return {"f": struct.unpack("<f", struct.pack("<i", int(rest)))[0].hex()}
     if tag == "r8":
         return {"f": struct.unpack("<d", struct.pack("<q", int(rest)))[0].hex()}
+    if r == "null":
+        return None            # CPython convention for a NULL char* (Py_BuildValue "s")
     if tag == "s":
         n, hx = rest.split(":")
         return bytes.fromhex(hx).decode("latin-1")
@@ -406,8 +408,23 @@ def main(rec):
                          options={"debug": r.random() < 0.3}, namespace=r.choice([None, "outer"]) if lang == "c++" else None)
         ops, meta = build_plan(lib, r, thorough)
         cases.append({"lib": lib, "ops": ops, "meta": meta})
+    # a NULL const char* result, alone in its library (a crash ends the driver, so nothing else shares it)
+    for lang in ("c", "c++"):
+        fs = [libs.F("cnull", "cstr", [libs.P("n", "val", "int", role="outlen")])]
+        for f in fs:
+            f["shape"] = "cstr_res_null"
+            f["fid"] = f["name"]
+        lib = {"name": "pnull" + ("x" if lang == "c++" else "c"), "language": lang, "functions": fs, "format": {}, "namespace": None, "wraps": ["python"],
+               "options": {"wrap_c": False, "wrap_fortran": False, "wrap_python": True, "wrap_lua": False}}
+        libs.assign_names(lib)
+        ops = [{"kind": "call", "name": "cnull", "pos": [n], "kw": {}, "k": k} for k, n in enumerate([3, 0, -1, 5])]
+        meta = [{"expect": "ok", "f": 0, "T": None, "args": {"n": n}, "arity": 1} for n in (3, 0, -1, 5)]
+        cases.append({"lib": lib, "ops": ops, "meta": meta, "tag": "null-char-result"})
     res = pool.run_cases("vf.checks.c03", cases, func="run_library", timeout=2400)
     for c, rr in zip(cases, res):
+        if c.get("tag") and "stats" in rr:
+            for v in rr["violations"]:
+                v["mech"] = "%s:%s" % (v["mech"], c["tag"])
         if "stats" not in rr:
             workloads.bad_run(rec, {"name": c["lib"]["name"]}, rr)
             continue
